@@ -11,7 +11,7 @@ def build(ctx):
         ctx.diag.append("translator failed: " + out[-300:])
     C.prove(ctx, ["Props/C07.v", "Props/C07File.v", "Props/C07Full.v"],
             ["Oblig/C07Obl.v", "Model/JsonCodecFacts.v", "Oblig/C07FileObl.v", "Model/JsonSurvive.v", "Model/JsonFileFacts.v",
-             "Model/JsonPostTable.v", "Model/JsonDefaultsTable.v", "Model/JsonFullFacts.v", "Oblig/C07FullObl.v"])
+             "Model/JsonPostTable.v", "Model/JsonDefaultsTable.v", "Model/JsonFullFacts.v", "Model/JsonKeepFacts.v", "Oblig/C07FullObl.v"])
     ok, out = C.build_harness()
     ctx.log("go build", out)
     if not ok:
@@ -160,7 +160,7 @@ def run(ctx):
                     "jsontags analysis of the translator (struct tags, aux structs of the JSON methods, decode wrappers of file.go, constructor literals; syntactic)",
                     "encoding/json: text <-> tree, case-insensitive key matching, omitempty, decoding into existing values (modelled by enc/dec, validated by the correspondence run)"]
     ctx.assumptions += ["strings are valid UTF-8 (json.Marshal replaces invalid bytes); JSON objects carry no duplicate keys",
-                        "C07_roundtrip (Props/C07Full.v): write, file options, header options and offsets survive FileFromJSON(Marshal(v)) for every typed File value (ADV included) that is in the domain (options stored through File.SetValidation, priorityCode the package's literal, timestamps in NACHA form), valid (regenerated FileHeader rules, batch headers present, addenda type codes, Create's preconditions), tabulated (build / Create are the identity) and json-safe (keep_ok: no Addenda98.iatCorrectedData, FileIDModifier not empty, header constants; catx_clean: the CTX/ATX name heuristic does not fire) -- the last two exclusions are the known findings, each with a _refuted witness",
+                        "C07_roundtrip (Props/C07Full.v): write, file options, header options and offsets survive FileFromJSON(Marshal(v)) for every typed File value (ADV included) that is in the domain (options stored through File.SetValidation, priorityCode the package's literal, timestamps in NACHA form), valid (regenerated FileHeader rules, batch headers present, addenda type codes, Create's preconditions), tabulated (build / Create / createFileADV are the identity) and json-safe (no Addenda98.iatCorrectedData; the CTX/ATX name heuristic does not fire) -- json-safe is exactly the known findings, each with a _refuted witness; the kept excused fields (header constants, FileIDModifier) are derived from validity (C07_keep_from_valid)",
                         "PARTIAL (phase 2 statement, kept): C07_roundtrip_partial (write (from_json (to_json v)) = write v) is proved for file values whose tree is 'ready' (not ADV, addenda type codes present, CTX/ATX counts set, build under the file's options is the identity on every batch, timestamps shorter than 19 bytes, batch numbers and file control as Create computes them) and whose kept excused fields hold their decode-time values; FileHeader.Validate / BatchHeader.Validate / File.Validate are abstract predicates; ADV files, the reader (text -> file) and option-dependent renderings of the file header are covered by correspondence and oracle only",
                         "post-processing model: nil elements of JSON arrays, the key advFileControl in a hand-written document, Unicode case folding of the OFFSET name are not modelled",
                         "the excused fields of Oblig/C07Obl.v (unexported option pointers, ids, categories, Batch.ADVControl, File.ADVControl, NotificationOfChange/ReturnEntries, FileHeader constants) are restored or recomputed by the decoder's post-processing or are not rendered (docs/C07.md)"]
@@ -186,7 +186,7 @@ def run(ctx):
     s2 = cli(ctx, ctx.scale(30, 240))
     ctx.add_summary(s2, "achcli -reformat")
     if ctx.tier == "thorough":
-        ctx.cov["forbidden_vernacular"] = [x for x in C.forbidden_vernacular() if "JsonCodec" in x or "C07" in x or "JsonTags" in x or "JsonFile" in x or "JsonSurvive" in x or "JsonPost" in x or "JsonFull" in x or "JsonDefaults" in x]
+        ctx.cov["forbidden_vernacular"] = [x for x in C.forbidden_vernacular() if "JsonCodec" in x or "C07" in x or "JsonTags" in x or "JsonFile" in x or "JsonSurvive" in x or "JsonPost" in x or "JsonFull" in x or "JsonDefaults" in x or "JsonKeep" in x]
 
 
 def replay(path):
